@@ -39,9 +39,14 @@ class Check:
         self.tier = tier
         self.seed = seed
         self.t0 = time.time()
-        self.work = os.path.join(WORK, pid)
+        # one scratch directory and one replay directory per (property, tier): a quick and a thorough run of the same
+        # property may run side by side; both are emptied at the start of a run so that nothing stale is reported
+        self.work = os.path.join(WORK, '%s.%s' % (pid, tier) if tier != 'quick' else pid)
         shutil.rmtree(self.work, ignore_errors=True)
         os.makedirs(self.work, exist_ok=True)
+        self.replay_dir = os.path.join(VERIF, 'replays', '%s.%s' % (pid, tier))
+        shutil.rmtree(self.replay_dir, ignore_errors=True)
+        os.makedirs(self.replay_dir, exist_ok=True)
         self.obs = []
         self.assumptions = []
         self.functions = {}       # cname -> (qualname, loc)
